@@ -241,6 +241,12 @@ class Library:
 
         @nat('enumerate')
         def _enumerate(it, x, start=0):
+            if getattr(it, 'symbolic_enumerate', False) and hasattr(x, 'elem') and hasattr(x, 'n') and x.concrete_len(it) is None and start == 0:
+                # enumerate(L) over a label list of symbolic length: the pairs (i, L[i]) as a sequence for a loop invariant
+                from .models import SymSeq
+                s = SymSeq([], x.n, lambda i, x=x: (Sym(i), Sym(x.elem(i))), 'enumerate')
+                s.enumerated = x
+                return s
             return GenV(iter([(i + start, v) for i, v in enumerate(it.iterate(x))]))
 
         @nat('zip')
